@@ -217,6 +217,16 @@ def _mk(ctx, lib, sty, bodies):
         # ... or through u8's own Serializable impl (one byte: SER-PRIM width:u8)
         w8 = [s for s in S.calls if s["name"] == W and self_ty(s["c"]) == "u8"]
         ok = len(w8) == 1 and len(S.calls) == 2 and m(Par(1), froms[0]["args"][0]) and m(Par(1), w8[0]["args"][0]) and m(Par(2), w8[0]["args"][1])
+    if not ok and len(pushes) == 1 and m(Par(2), pushes[0]["args"][0]):
+        # ... or `*self as u8`: the byte is the variant's discriminant, which must then BE the conversion table (variant by variant)
+        pv = pushes[0]["args"][1]
+        while pv[0] == "cast":
+            pv = pv[1]
+        if pv[0] == "discr" and m(Par(1), pv[1]):
+            dtab = {v_["name"]: v_["discr"] for v_ in lib.adts["MatchKind"]["variants"]}
+            others = [s_ for s_ in S.calls if s_ is not pushes[0] and not s_["key"].startswith("core::panicking::") and s_["c"].body_path != to_u8.path
+                      and core.callee_base(s_["key"]) not in ("core::convert::From::from", "core::convert::Into::into")]
+            ok = dtab == enc and not others
     ctx.check(ok, "SER-MK", wb, "writer-one-byte", wb.span, "writer must push exactly u8::from(*self)")
     RS = Sites(lib, rb)
     def same_decoder(c):
@@ -304,8 +314,21 @@ def _vec(ctx, lib, sty, bodies):
         pushes = RS.keyed(lambda k: k == "alloc::vec::Vec::push")
         okr = okr and len(pushes) == 1 and m(F(el, "0", "(tuple)"), pushes[0]["args"][1]) and rb.in_cycle(pushes[0]["bb"]) and rb.in_cycle(rs[1]["bb"])
         ret = pnorm(FnView(lib, rb).root.ret())
-        okr = okr and ret[0] == "tuple" and core.same(ret[1][0], pushes[0]["args"][0]) and \
-            m(Phi(F(first, "1", "(tuple)"), F(el, "1", "(tuple)"), req=[0, 1]), ret[1][1])
+        rets_ = list(members(ret))
+        # an early return of (Vec::new(), remainder) is the same result when — and only when — the count read is 0
+        zero_n = lambda t: t[0] == "bin" and t[1] == "Eq" and any(m(F(first, "0", "(tuple)"), x) for x in (t[2], t[3])) and \
+            any(x[0] == "const" and x[1] == 0 for x in (t[2], t[3]))
+        main_ = [x for x in rets_ if x[0] == "tuple" and core.same(x[1][0], pushes[0]["args"][0])]
+        early_ = [x for x in rets_ if x not in main_]
+        for x in early_:
+            oke = x[0] == "tuple" and x[1][0][0] == "call" and isinstance(x[1][0][1], str) and core.callee_base(x[1][0][1]) == "alloc::vec::Vec::new" and \
+                m(Phi(F(first, "1", "(tuple)"), F(el, "1", "(tuple)")), x[1][1])
+            if oke:
+                v_nz = cond.explore(RS.root, [0], [(zero_n, False)])
+                oke = v_nz is not None and x[1][0][3][1] not in v_nz and not rb.in_cycle(x[1][0][3][1]) and \
+                    rs[1]["bb"] not in rb.reach(x[1][0][3][1])
+            okr = okr and oke
+        okr = okr and len(main_) == 1 and m(Phi(F(first, "1", "(tuple)"), F(el, "1", "(tuple)"), req=[0, 1]), main_[0][1][1])
     ctx.check(okr, "SER-VEC", rb, "reader", rb.span,
               "reader must read a u32 n, then n elements each from the previous remainder, pushing in order, and return the last remainder")
     t = pnorm(FnView(lib, sb).root.ret())
